@@ -52,7 +52,61 @@ type Tag struct {
 
 type Poly struct {
 	Paths []ID   // non-nil: a polygon given by path ids
-	Loops [][]LL // otherwise: explicit loops
+	Loops [][]LL // otherwise: explicit loops (E7 vertices, in the order S2 keeps them)
+	// Raw, when set, are the loops handed to S2 in degrees (not necessarily E7 exact); Loops / Dropped are
+	// then derived from the S2 polygon by finishPoly: Dropped[i] = the loop does not survive E7
+	// quantisation (the oracle of FromS2Polygon's lastMarshalledLoopIsValid)
+	Raw     [][][2]float64
+	Dropped []bool
+}
+
+func (p Poly) s2Polygon() *s2.Polygon {
+	var loops []*s2.Loop
+	if p.Raw != nil {
+		for _, l := range p.Raw {
+			pts := make([]s2.Point, len(l))
+			for k, q := range l {
+				pts[k] = s2.PointFromLatLng(s2.LatLngFromDegrees(q[0], q[1]))
+			}
+			loops = append(loops, s2.LoopFromPoints(pts))
+		}
+	} else {
+		for _, l := range p.Loops {
+			pts := make([]s2.Point, len(l))
+			for k, q := range l {
+				pts[k] = s2.PointFromLatLng(s2ll(q))
+			}
+			loops = append(loops, s2.LoopFromPoints(pts))
+		}
+	}
+	return s2.PolygonFromLoops(loops)
+}
+
+// finishPoly derives, for a polygon given by raw loops, what FromS2Polygon will see: the loops in S2's
+// order with their vertices at E7, and for each whether it survives the quantisation (S2 says the
+// quantised loop is valid and its area is within 1e-4 of the original's).
+func finishPoly(p Poly) Poly {
+	if p.Raw == nil {
+		return p
+	}
+	poly := p.s2Polygon()
+	p.Loops, p.Dropped = nil, nil
+	for i := 0; i < poly.NumLoops(); i++ {
+		l := poly.Loop(i)
+		var e7s []LL
+		var pts []s2.Point
+		for j := 0; j < l.NumVertices(); j++ {
+			ll := s2.LatLngFromPoint(l.Vertex(j))
+			q := LL{Lat: ll.Lat.E7(), Lng: ll.Lng.E7()}
+			e7s = append(e7s, q)
+			pts = append(pts, s2.PointFromLatLng(s2ll(q)))
+		}
+		ul := s2.LoopFromPoints(pts)
+		ok := ul.Validate() == nil && math.Abs(1.0-(ul.Area()/l.Area())) < 0.0001
+		p.Loops = append(p.Loops, e7s)
+		p.Dropped = append(p.Dropped, !ok)
+	}
+	return p
 }
 
 type Member struct {
@@ -129,6 +183,9 @@ func polyWord(p Poly) string {
 			ws[j] = llWord(q)
 		}
 		ls[i] = strings.Join(ws, ";")
+		if p.Dropped != nil && p.Dropped[i] {
+			ls[i] = "!" + ls[i] // oracle: this loop does not survive E7 quantisation
+		}
 	}
 	return "l:" + strings.Join(ls, "|")
 }
@@ -211,15 +268,7 @@ func toFeature(f Feat) ingest.Feature {
 				}
 				a.SetPathIDs(i, ids)
 			} else {
-				loops := make([]*s2.Loop, len(p.Loops))
-				for j, l := range p.Loops {
-					pts := make([]s2.Point, len(l))
-					for k, q := range l {
-						pts[k] = s2.PointFromLatLng(s2ll(q))
-					}
-					loops[j] = s2.LoopFromPoints(pts)
-				}
-				a.SetPolygon(i, s2.PolygonFromLoops(loops))
+				a.SetPolygon(i, p.s2Polygon())
 			}
 		}
 		return a
@@ -585,7 +634,8 @@ func generate(r *hx.Rand, thorough bool) ([]Feat, []string) {
 
 	// areas
 	tri := 0
-	explicit := func() Poly {
+	var explicit func() Poly
+	explicit = func() Poly {
 		nl := 1
 		var loops [][]LL
 		for l := 0; l < nl; l++ {
@@ -600,6 +650,59 @@ func generate(r *hx.Rand, thorough bool) ([]Feat, []string) {
 			loops = append(loops, loop)
 		}
 		return Poly{Loops: loops}
+	}
+	// an explicit polygon of several loops: shells, a hole inside a shell, and degenerate loops that collapse to
+	// one point at E7 precision (dropped by FromS2Polygon) in first / middle / last position
+	explicitMulti := func() Poly {
+		tri++
+		c := g.circle(tri, 389, 400000)
+		deg := func(lat, lng int32) [2]float64 { return [2]float64{float64(lat) / 1e7, float64(lng) / 1e7} }
+		square := func(clat, clng, rad int32) [][2]float64 {
+			return [][2]float64{deg(clat-rad, clng-rad), deg(clat-rad, clng+rad), deg(clat+rad, clng+rad), deg(clat+rad, clng-rad)}
+		}
+		tiny := func(clat, clng int32) [][2]float64 {
+			b := deg(clat, clng)
+			return [][2]float64{{b[0] + 1e-9, b[1] + 1e-9}, {b[0] + 1e-9, b[1] + 3e-9}, {b[0] + 3e-9, b[1] + 2e-9}}
+		}
+		var raw [][][2]float64
+		n := 2 + r.Intn(3)
+		tinyAt := -1
+		if r.Chance(3, 4) {
+			tinyAt = r.Intn(n)
+		}
+		for k := 0; k < n; k++ {
+			off := int32(k) * 40000
+			switch {
+			case k == tinyAt:
+				raw = append(raw, tiny(c.Lat+off, c.Lng+off))
+				switch {
+				case k == 0:
+					g.note("loop:tiny-first")
+				case k == n-1:
+					g.note("loop:tiny-last")
+				default:
+					g.note("loop:tiny-middle")
+				}
+			default:
+				raw = append(raw, square(c.Lat+off, c.Lng+off, 9000))
+				if r.Chance(1, 3) {
+					raw = append(raw, square(c.Lat+off, c.Lng+off, 3000)) // nested: a hole
+					g.note("loop:hole")
+				}
+				if r.Chance(1, 6) {
+					raw = append(raw, tiny(c.Lat+off+20000, c.Lng+off)) // a second degenerate loop
+				}
+			}
+		}
+		g.note("area:loops-multi")
+		return finishPoly(Poly{Raw: raw})
+	}
+	explicit1 := explicit
+	explicit = func() Poly {
+		if r.Chance(1, 4) {
+			return explicitMulti()
+		}
+		return explicit1()
 	}
 	for i := 0; i < nAreas; i++ {
 		ns := r.Pick(arNS)
@@ -690,6 +793,15 @@ func generate(r *hx.Rand, thorough bool) ([]Feat, []string) {
 		g.fs = append(g.fs, Feat{ID: id, Tags: g.strTags(3), Members: ms})
 	}
 
+	// heavy features: sizes that cross the 2^8 / 2^16 boundaries of length and offset fields
+	heavyChance := 20
+	if thorough {
+		heavyChance = 8
+	}
+	if r.Chance(1, heavyChance) {
+		g.heavy(thorough)
+	}
+
 	// (a tag whose value is a single feature id is the known finding class fid-tag-value: the generator
 	// excludes exactly that class; its witness is in the corpus)
 
@@ -724,6 +836,80 @@ func generate(r *hx.Rand, thorough bool) ([]Feat, []string) {
 	}
 	g.note(fmt.Sprintf("namespaces:%d", len(nsSet)))
 	return g.fs, g.notes
+}
+
+// heavy adds one feature (or family of features) whose record, scratch bucket or member / point / tag count is
+// far beyond the usual: long values, thousands of tags, tens of thousands of points or members, thousands of
+// paths through one point.
+func (g *gen) heavy(thorough bool) {
+	r := g.r
+	big := thorough && r.Chance(1, 3)
+	pick := func(small, large int) int {
+		if big {
+			return large
+		}
+		return small
+	}
+	p0 := g.points[0]
+	switch r.Intn(6) {
+	case 0: // a point with one very long string value (> 64 KB record)
+		n := 66000 + r.Intn(140000)
+		var sb strings.Builder
+		for i := 0; i < n; i++ {
+			sb.WriteByte(byte('a' + (i*7+i/13)%26))
+		}
+		id := g.freshID(0, p0.NS)
+		g.fs = append(g.fs, Feat{ID: id, Tags: []Tag{{K: "note", V: Val{Kind: 's', S: sb.String()}}, {K: "point", V: Val{Kind: 'p', P: g.circle(7, 11, 300000)}}}})
+		g.note("heavy:long-value")
+	case 1: // a point with hundreds / thousands of tags
+		n := pick(300, 3000)
+		ts := []Tag{{K: "point", V: Val{Kind: 'p', P: g.circle(5, 11, 300000)}}}
+		for i := 0; i < n; i++ {
+			ts = append(ts, Tag{K: fmt.Sprintf("key:%d", i), V: Val{Kind: 's', S: fmt.Sprintf("value number %d", i%97)}})
+		}
+		g.fs = append(g.fs, Feat{ID: g.freshID(0, p0.NS), Tags: ts})
+		g.note(fmt.Sprintf("heavy:tags-%d", n))
+	case 2: // a lat/lng path with very many points
+		n := pick(300, 70000)
+		es := make([]Elem, n)
+		for i := range es {
+			es[i] = Elem{P: LL{Lat: g.cy + 500000 + int32(i), Lng: g.cx + int32(2*i)}}
+		}
+		g.fs = append(g.fs, Feat{ID: g.freshID(1, nsWay), Tags: []Tag{{K: "path", V: Val{Kind: 'x', X: es}}}})
+		g.note(fmt.Sprintf("heavy:path-points-%d", n))
+	case 3: // a reference path that visits the same few points hundreds of times
+		n := pick(300, 5000)
+		es := make([]Elem, n)
+		for i := range es {
+			es[i] = Elem{IsRef: true, R: g.points[(i*7)%len(g.points)]}
+		}
+		if es[0] == es[n-1] {
+			es[n-1] = Elem{IsRef: true, R: g.points[(n*7+1)%len(g.points)]}
+		}
+		g.fs = append(g.fs, Feat{ID: g.freshID(1, nsWay), Tags: []Tag{{K: "path", V: Val{Kind: 'x', X: es}}}})
+		g.note(fmt.Sprintf("heavy:path-refs-%d", n))
+	case 4: // a relation with very many members (the member points get > 64 KB of scratch entries)
+		n := pick(5000, 70000)
+		if !thorough {
+			n = 300 + r.Intn(2)*21000
+		}
+		ms := make([]Member, n)
+		for i := range ms {
+			ms[i] = Member{Role: roleVocab[i%len(roleVocab)], ID: g.points[i%2]}
+			if i%5 == 0 && len(g.paths) > 0 {
+				ms[i].ID = g.paths[i%len(g.paths)]
+			}
+		}
+		g.fs = append(g.fs, Feat{ID: g.freshID(3, nsRel), Members: ms})
+		g.note(fmt.Sprintf("heavy:members-%d", n))
+	default: // hundreds / thousands of paths through one point
+		n := pick(300, 3000)
+		for i := 0; i < n; i++ {
+			g.fs = append(g.fs, Feat{ID: g.freshID(1, nsWay), Tags: []Tag{{K: "path", V: Val{Kind: 'x', X: []Elem{
+				{IsRef: true, R: p0}, {IsRef: true, R: g.points[1+i%(len(g.points)-1)]}}}}}})
+		}
+		g.note(fmt.Sprintf("heavy:paths-through-point-%d", n))
+	}
 }
 
 func sortInts(a []int) {
